@@ -678,6 +678,7 @@ def gloo_validation(rep: Report, cases: list[Case], cap_ok=36, cap_fail=10):
 
 def run(rep: Report):
     rng = Rng(rep.seed * 1000003 + 15)
+    from .. import opscheck; opscheck.check_ops(rep, ["sync"])
     transport_selftest(rep)
     cases = list(gen_cases(rng, rep.tier))
     deadline = time.time() + budget(rep.tier, 70, 600)
